@@ -475,7 +475,8 @@ def transform(
         )
     elif method == "conservative":
         if isinstance(target, xr.DataArray):
-            if target_dim is not None and len(target_dim) > 1:
+            # (the number of dimensions of the target counts, not the length of the name)
+            if target.ndim > 1:
                 raise NotImplementedError(
                     "Conservative transformation is not yet supported for multi-dimensional targets."
                 )
